@@ -721,6 +721,9 @@ func (fe *FnEnc) havocKeys(keys map[string]bool) {
 			gk := strings.TrimPrefix(k, "ghost:")
 			fe.mem.ghost[gk] = fe.s.fresh("hg", fe.g.ghostSort(gk))
 		} else {
+			if fe.s.immutableKey(k) {
+				continue // objects of a type declared immutable (and checked to be so) keep their fields
+			}
 			if _, ok := fe.s.heapSort[k]; !ok {
 				if reg := fe.g.heapReg[k]; reg != nil {
 					reg(fe.s)
